@@ -542,11 +542,20 @@ func shards(tier string) []string {
 			out = append(out, fmt.Sprintf("t/%d/%d", ti, k))
 		}
 	}
+	if tier == "thorough" {
+		for ti := range tripleTargets {
+			for k := 0; k < 8; k++ {
+				out = append(out, fmt.Sprintf("triple/%d/%d", ti, k))
+			}
+		}
+	}
 	return append(out, "two-modules/0", "two-modules/1", "two-modules/2", "two-modules/3")
 }
 
+var tripleTargets = []string{"l", "ll", "u1/gll", "ch", "c/cc/y"}
+
 func run(c *core.Ctx) {
-	c.Res.Bound = fmt.Sprintf("%d targets (leaf with default and units, plain leaf, mandatory leaf, bounded leaf-list, list, config-false container, nested leaves, choice with default, anydata, leaf / leaf-list / list inside one of two uses of a grouping, rpc input leaf, two missing targets) x every single deviate (not-supported, unknown kind, add/replace/delete x 18 single properties and 5 property pairs) and every ordered pair of deviates, plus the ignore-not-supported option; two deviating modules on the same and on different targets", len(targets))
+	c.Res.Bound = fmt.Sprintf("%d targets (leaf with default and units, plain leaf, mandatory leaf, bounded leaf-list, list, config-false container, nested leaves, choice with default, anydata, leaf / leaf-list / list inside one of two uses of a grouping, rpc input leaf, two missing targets) x every single deviate (not-supported, unknown kind, add/replace/delete x 18 single properties and 5 property pairs) and every ordered pair of deviates (thorough: every ordered triple of single-property deviates on 5 targets), plus the ignore-not-supported option; two deviating modules on the same and on different targets", len(targets))
 	ds := deviates()
 	n := 0
 	one := func(in Input) {
@@ -587,6 +596,27 @@ func run(c *core.Ctx) {
 	parts := strings.Split(c.Shard, "/")
 	var a, b int
 	fmt.Sscanf(parts[1], "%d", &a)
+	if parts[0] == "triple" {
+		fmt.Sscanf(parts[2], "%d", &b)
+		t := tripleTargets[a]
+		var core3 []deviate // not-supported cannot be combined; the unknown kind is covered by pairs
+		for _, d := range ds {
+			if d.Kind != "not-supported" && d.Kind != "bogus" && len(d.Props) == 1 {
+				core3 = append(core3, d)
+			}
+		}
+		for i, d1 := range core3 {
+			if i%8 != b {
+				continue
+			}
+			for _, d2 := range core3 {
+				for _, d3 := range core3 {
+					one(Input{Devs: []Deviation{{"d1", t, []deviate{d1, d2, d3}}}})
+				}
+			}
+		}
+		return
+	}
 	if parts[0] == "t" {
 		fmt.Sscanf(parts[2], "%d", &b)
 		t := targets[a]
